@@ -305,8 +305,74 @@ def gen_ops_big(rng, regions, full_drain=False):
     return ops + cut, 'big'
 
 
-def gen_pmm_case(rng, sel, tier_max_frames=600, big_drain=0.0):
+def gen_long_history(rng, sel, unit, short=False):
+    """Small multi-pool map and a history built around an operation COUNT: state that only goes wrong after
+    [unit] (2^8 / 2^16) operations of one kind.  Cycle: fill the lower pools and part of a higher pool (so that
+    its first bitmap words are full), free a low frame of that pool, then churn free/alloc pairs that the
+    lower pools absorb until the number of successful frees since then is k*unit + d (k in {1,2}, d in a
+    small window around 0, mostly 0), then allocate until out-of-memory - every usable frame must come back."""
+    npools = rng.choice([2, 2, 3])
+    sizes = [rng.choice([3, 8, 20, 64, 65, rng.randrange(3, 130)])]
+    sizes += [rng.choice([129, 130, 192, 200, 257, rng.randrange(129, 400)]) for _ in range(npools - 1)]
+    addr = rng.choice([0x10000, 0x100000, pick_base(rng) // PAGE * PAGE])
+    regions = []
+    for f in sizes:
+        regions.append((addr, f * PAGE, 1))
+        addr += f * PAGE + rng.choice([0, PAGE, 0x10000])
+        if rng.random() < 0.3:
+            regions.append((addr, PAGE, 2)); addr += PAGE
+    # kernel: two frames at the end of the last pool (out of the way of the cycle)
+    la, ll, _ = [r for r in regions if r[2] == 1][-1]
+    ks, ke = la + ll - 2 * PAGE, la + ll - rng.choice([0, 1, 100])
+    pools = [whole_frames(a, l) for a, l, t in regions if t == 1]
+    ops = []
+    lower = sum(hi - lo + 1 for lo, hi in pools[:1])
+    for cyc in range(1 if short else rng.choice([1, 1, 2])):
+        tgt = rng.randrange(1, npools)                          # the higher pool whose scan state is exercised
+        lo, hi = pools[tgt]
+        below = sum(h - l + 1 for l, h in pools[:tgt])
+        into = rng.choice([64, 65, 70, 128, rng.randrange(64, min(hi - lo - 2, 250))])   # first word(s) of tgt full
+        ops += [0] * (below + into + 2)                         # (some of these fail once memory is short: harmless)
+        low = lo + rng.choice([0, 1, 5, 63, rng.randrange(0, 64)])
+        ops += [1, low]                                         # free a low frame of the target pool
+        k = 1 if short else rng.choice([1, 1, 2])
+        d = rng.choice([0, 0, 0, 0, 0, 0, -1, 1]) if unit > 256 else rng.choice([0, 0, 0, 0, -1, 1, -2, 2])
+        frees = k * unit + d - 1
+        # churn absorbed by pool 0: free its last frame and take it back
+        p0lo, p0hi = pools[0]
+        victims = []
+        for v in (p0hi, p0hi - 1, p0lo + (p0hi - p0lo) // 2):
+            if v > p0lo and v not in victims:            # (p0lo is the early-boot frame)
+                victims.append(v)
+        style = rng.choice(['one', 'rotate', 'burst'])
+        if style == 'burst':
+            i = 0
+            while i < frees:
+                n = min(frees - i, rng.randint(1, len(victims)))
+                for j in range(n):
+                    ops += [1, victims[j]]
+                ops += [0] * n
+                i += n
+        else:
+            for i in range(frees):
+                v = victims[0] if style == 'one' else victims[i % len(victims)]
+                ops += [1, v, 0]
+        ops += [0] * (sum(h - l + 1 for l, h in pools) - below - into + 3)   # until out-of-memory
+        if cyc == 0 and not short:
+            # release everything that was handed out, ready for another cycle
+            for l, h in pools:
+                for f in range(l, h + 1):
+                    if f != pools[0][0] and not (ks // PAGE <= f <= (ke - 1) // PAGE):   # not the early-boot / kernel frames
+                        ops += [1, f]
+    return [sel] + enc_map(regions) + [ks, ke, RESERVE_LIMIT, 0] + ops, 'long:%d' % unit
+
+
+def gen_pmm_case(rng, sel, tier_max_frames=600, big_drain=0.0, long16=0.0):
     scen = rng.random()
+    if scen < long16:
+        return gen_long_history(rng, sel, 1 << 16)
+    if scen < long16 + 0.012:
+        return gen_long_history(rng, sel, 1 << 8)
     if scen < 0.10:
         # allocator state of 1-3 pages ending next to a page boundary
         regions = gen_boundary_map(rng)
